@@ -20,16 +20,36 @@ pub fn take() -> Vec<String> {
     SINK.with(|s| s.borrow_mut().take().unwrap_or_default())
 }
 
+/// Directory to append events to, one file per thread: lets an unmodified test suite be traced
+/// by setting `BPAF_VERIF_TRACE_DIR`
+fn trace_dir() -> Option<&'static str> {
+    static DIR: std::sync::OnceLock<Option<String>> = std::sync::OnceLock::new();
+    DIR.get_or_init(|| std::env::var("BPAF_VERIF_TRACE_DIR").ok())
+        .as_deref()
+}
+
 pub(crate) fn enabled() -> bool {
-    SINK.with(|s| s.borrow().is_some())
+    SINK.with(|s| s.borrow().is_some()) || trace_dir().is_some()
 }
 
 pub(crate) fn emit(event: String) {
-    SINK.with(|s| {
+    let recorded = SINK.with(|s| {
         if let Some(v) = s.borrow_mut().as_mut() {
-            v.push(event);
+            v.push(event.clone());
+            true
+        } else {
+            false
         }
     });
+    if !recorded {
+        if let Some(dir) = trace_dir() {
+            use std::io::Write;
+            let name = format!("{}/{:?}.ndjson", dir, std::thread::current().id()).replace(['(', ')'], "_");
+            if let Ok(mut f) = std::fs::OpenOptions::new().create(true).append(true).open(name) {
+                let _ = writeln!(f, "{}", event);
+            }
+        }
+    }
 }
 
 /// `"led":[..],"lo":..,"hi":..,"rem":..,"depth":..` of a state
